@@ -35,9 +35,6 @@ impl Gate {
         self.0.lock().unwrap().parked.push((id, desc, tx));
         let _ = rx.await;
     }
-    fn parked_of(&self, id: usize) -> Option<String> {
-        self.0.lock().unwrap().parked.iter().find(|p| p.0 == id).map(|p| p.1.clone())
-    }
     fn parked_tasks(&self) -> Vec<usize> {
         let mut v: Vec<usize> = self.0.lock().unwrap().parked.iter().map(|p| p.0).collect();
         v.sort();
